@@ -808,6 +808,9 @@ class BaseBackend(CodeGen):
         from scipy.integrate import solve_ivp
         kwargs['t_eval'] = times
 
-        # call scipy solver
-        results = solve_ivp(fun=func, t_span=(t0, T), y0=y, first_step=dt, args=args, **kwargs)
+        # call scipy solver (copy the returned slope: func hands back its shared dy buffer, which scipy's
+        # Runge-Kutta steppers keep by reference between evaluations)
+        def f(t, y_, *a):
+            return np.array(func(t, y_, *a))
+        results = solve_ivp(fun=f, t_span=(t0, T), y0=y, first_step=dt, args=args, **kwargs)
         return results['y'].T
